@@ -164,3 +164,210 @@ Corollary running_ids_functional fuel c :
 Proof.
   unfold running_ids. rewrite map_fst_combine by (rewrite map_length, seq_length; reflexivity). apply elems_no_duplicates.
 Qed.
+
+(* ---- the traversal reaches every element object (completeness), for any fuel not smaller than the nesting depth -------- *)
+Section Ind.
+Variables (P : inode -> Prop) (Q : iconn -> Prop).
+Hypothesis HE : forall u s l k subs, (forall c, In (Some c) subs -> Q c) -> P (IE u s l k subs).
+Hypothesis HC : forall c, Q c -> P (IC c).
+Hypothesis HS : forall l, (forall n, In n l -> P n) -> Q (ISer l).
+Hypothesis HP : forall l, (forall n, In n l -> P n) -> Q (IPar l).
+
+Fixpoint inode_ind2 (n : inode) : P n :=
+  match n with
+  | IE u s l k subs =>
+      HE u s l k subs
+        ((fix go (subs : list (option iconn)) : forall c, In (Some c) subs -> Q c :=
+            match subs with
+            | [] => fun c H => match H with end
+            | os :: r => fun c H =>
+                match H with
+                | or_introl e => match os as o return o = Some c -> Q c with
+                                 | Some c' => fun e' => match (f_equal (fun x => match x with Some y => y | None => c' end) e') in _ = y return Q y with eq_refl => iconn_ind2 c' end
+                                 | None => fun e' => match (eq_ind None (fun x => match x with None => True | Some _ => False end) I _ e') with end
+                                 end e
+                | or_intror H' => go r c H'
+                end
+            end) subs)
+  | IC c => HC c (iconn_ind2 c)
+  end
+with iconn_ind2 (c : iconn) : Q c :=
+  match c with
+  | ISer l => HS l ((fix go (l : list inode) : forall n, In n l -> P n :=
+                       match l with
+                       | [] => fun n H => match H with end
+                       | x :: r => fun n H => match H with
+                                              | or_introl e => match e in _ = y return P y with eq_refl => inode_ind2 x end
+                                              | or_intror H' => go r n H'
+                                              end
+                       end) l)
+  | IPar l => HP l ((fix go (l : list inode) : forall n, In n l -> P n :=
+                       match l with
+                       | [] => fun n H => match H with end
+                       | x :: r => fun n H => match H with
+                                              | or_introl e => match e in _ = y return P y with eq_refl => inode_ind2 x end
+                                              | or_intror H' => go r n H'
+                                              end
+                       end) l)
+  end.
+End Ind.
+
+Lemma tree_ind2 (P : inode -> Prop) (Q : iconn -> Prop) :
+  (forall u s l k subs, (forall c, In (Some c) subs -> Q c) -> P (IE u s l k subs)) ->
+  (forall c, Q c -> P (IC c)) ->
+  (forall l, (forall n, In n l -> P n) -> Q (ISer l)) ->
+  (forall l, (forall n, In n l -> P n) -> Q (IPar l)) ->
+  (forall n, P n) /\ (forall c, Q c).
+Proof. intros HE HC HS HP. split; [apply (inode_ind2 P Q HE HC HS HP)|apply (iconn_ind2 P Q HE HC HS HP)]. Qed.
+
+Fixpoint depth_node (n : inode) : nat :=
+  match n with
+  | IE _ _ _ _ subs => S ((fix go (l : list (option iconn)) := match l with [] => 0 | Some c :: r => Nat.max (depth_conn c) (go r) | None :: r => go r end) subs)
+  | IC c => S (depth_conn c)
+  end
+with depth_conn (c : iconn) : nat :=
+  match c with
+  | ISer l | IPar l => S ((fix go (l : list inode) := match l with [] => 0 | x :: r => Nat.max (depth_node x) (go r) end) l)
+  end.
+
+Definition max_sub (l : list (option iconn)) : nat :=
+  (fix go (l : list (option iconn)) := match l with [] => 0 | Some c :: r => Nat.max (depth_conn c) (go r) | None :: r => go r end) l.
+Definition max_node (l : list inode) : nat :=
+  (fix go (l : list inode) := match l with [] => 0 | x :: r => Nat.max (depth_node x) (go r) end) l.
+
+Lemma max_sub_in l c : In (Some c) l -> depth_conn c <= max_sub l.
+Proof. induction l as [|[x|] r IH]; simpl; intros H; [contradiction| |]; destruct H as [H|H]; try discriminate; try (inversion H; subst); try lia; specialize (IH H); unfold max_sub in *; lia. Qed.
+Lemma max_node_in l n : In n l -> depth_node n <= max_node l.
+Proof. induction l as [|x r IH]; simpl; intros H; [contradiction|]. destruct H as [H|H]; [subst; lia|]. specialize (IH H). unfold max_node in *. lia. Qed.
+
+(* fuel-free versions of the two walks *)
+Fixpoint items_node' (n : inode) : list ielt :=
+  match n with
+  | IE u s l k subs => [mkIE u s l k subs]
+  | IC c => items_conn' c
+  end
+with items_conn' (c : iconn) : list ielt :=
+  match c with
+  | ISer l | IPar l => (fix go (l : list inode) := match l with [] => [] | x :: r => items_node' x ++ go r end) l
+  end.
+
+Fixpoint uids_node' (n : inode) : list nat :=
+  match n with
+  | IE u _ _ _ subs => u :: (fix go (l : list (option iconn)) := match l with [] => [] | Some c :: r => uids_conn' c ++ go r | None :: r => go r end) subs
+  | IC c => uids_conn' c
+  end
+with uids_conn' (c : iconn) : list nat :=
+  match c with
+  | ISer l | IPar l => (fix go (l : list inode) := match l with [] => [] | x :: r => uids_node' x ++ go r end) l
+  end.
+
+Definition sub_uids (os : option iconn) : list nat := match os with Some s => uids_conn' s | None => [] end.
+Definition elt_uids (e : ielt) : list nat := ie_uid e :: flat_map sub_uids (ie_subs e).
+
+Lemma go_items l : (fix go (l : list inode) := match l with [] => [] | x :: r => items_node' x ++ go r end) l = flat_map items_node' l.
+Proof. induction l; simpl; congruence. Qed.
+Lemma go_uids l : (fix go (l : list inode) := match l with [] => [] | x :: r => uids_node' x ++ go r end) l = flat_map uids_node' l.
+Proof. induction l; simpl; congruence. Qed.
+Lemma go_subs l : (fix go (l : list (option iconn)) := match l with [] => [] | Some c :: r => uids_conn' c ++ go r | None :: r => go r end) l = flat_map sub_uids l.
+Proof. induction l as [|[c|] r IH]; simpl; congruence. Qed.
+
+Lemma flat_map_ext_in {A B} (f g : A -> list B) l : (forall x, In x l -> f x = g x) -> flat_map f l = flat_map g l.
+Proof. induction l; simpl; intro H; auto. rewrite H by auto. rewrite IHl; auto. Qed.
+
+Lemma flat_map_flat_map {A B C} (f : A -> list B) (g : B -> list C) l : flat_map g (flat_map f l) = flat_map (fun x => flat_map g (f x)) l.
+Proof. induction l; simpl; auto. rewrite flat_map_app. congruence. Qed.
+
+(* with enough fuel the fuelled walks are the fuel-free ones *)
+Lemma items_fuel :
+  (forall n f, depth_node n <= f -> items_node f n = items_node' n) /\ (forall c f, depth_conn c <= f -> items_conn f c = items_conn' c).
+Proof.
+  apply tree_ind2.
+  - intros u s l k subs _ f H. destruct f; [simpl in H; lia|reflexivity].
+  - intros c IH f H. destruct f; [simpl in H; lia|]. simpl in *. apply IH. lia.
+  - intros l IH f H. destruct f; [simpl in H; lia|]. cbn [items_conn items_conn']. rewrite go_items.
+    apply flat_map_ext_in. intros x Hx. apply IH; auto. pose proof (max_node_in l x Hx). simpl in H. unfold max_node in *. lia.
+  - intros l IH f H. destruct f; [simpl in H; lia|]. cbn [items_conn items_conn']. rewrite go_items.
+    apply flat_map_ext_in. intros x Hx. apply IH; auto. pose proof (max_node_in l x Hx). simpl in H. unfold max_node in *. lia.
+Qed.
+
+Lemma uids_fuel :
+  (forall n f, depth_node n <= f -> all_uids_node f n = uids_node' n) /\ (forall c f, depth_conn c <= f -> all_uids_conn f c = uids_conn' c).
+Proof.
+  apply tree_ind2.
+  - intros u s l k subs IH f H. destruct f; [simpl in H; lia|]. cbn [all_uids_node uids_node']. f_equal. rewrite go_subs.
+    apply flat_map_ext_in. intros [c|] Hc; [|reflexivity]. simpl. apply IH; auto. pose proof (max_sub_in subs c Hc). simpl in H. unfold max_sub in *. lia.
+  - intros c IH f H. destruct f; [simpl in H; lia|]. simpl in *. apply IH. lia.
+  - intros l IH f H. destruct f; [simpl in H; lia|]. cbn [all_uids_conn uids_conn']. rewrite go_uids.
+    apply flat_map_ext_in. intros x Hx. apply IH; auto. pose proof (max_node_in l x Hx). simpl in H. unfold max_node in *. lia.
+  - intros l IH f H. destruct f; [simpl in H; lia|]. cbn [all_uids_conn uids_conn']. rewrite go_uids.
+    apply flat_map_ext_in. intros x Hx. apply IH; auto. pose proof (max_node_in l x Hx). simpl in H. unfold max_node in *. lia.
+Qed.
+
+(* every element object is a top-level element of the connection tree or lies in a sub-circuit of one *)
+Lemma uids_structure :
+  (forall n, uids_node' n = flat_map elt_uids (items_node' n)) /\ (forall c, uids_conn' c = flat_map elt_uids (items_conn' c)).
+Proof.
+  apply tree_ind2.
+  - intros u s l k subs _. cbn [uids_node' items_node' flat_map]. rewrite go_subs, app_nil_r. reflexivity.
+  - intros c IH. exact IH.
+  - intros l IH. cbn [uids_conn' items_conn']. rewrite go_uids, go_items, flat_map_flat_map. apply flat_map_ext_in. exact IH.
+  - intros l IH. cbn [uids_conn' items_conn']. rewrite go_uids, go_items, flat_map_flat_map. apply flat_map_ext_in. exact IH.
+Qed.
+
+Lemma sub_depth :
+  (forall n e s, In e (items_node' n) -> In (Some s) (ie_subs e) -> depth_conn s < depth_node n)
+  /\ (forall c e s, In e (items_conn' c) -> In (Some s) (ie_subs e) -> depth_conn s < depth_conn c).
+Proof.
+  apply tree_ind2.
+  - intros u sy l k subs _ e s He Hs. destruct He as [He|[]]. subst e. simpl in Hs. pose proof (max_sub_in subs s Hs). simpl. unfold max_sub in *. lia.
+  - intros c IH e s He Hs. simpl in *. specialize (IH e s He Hs). lia.
+  - intros l IH e s He Hs. cbn [items_conn'] in He. rewrite go_items in He. apply in_flat_map in He. destruct He as (x & Hx & He).
+    specialize (IH x Hx e s He Hs). pose proof (max_node_in l x Hx). simpl. unfold max_node in *. lia.
+  - intros l IH e s He Hs. cbn [items_conn'] in He. rewrite go_items in He. apply in_flat_map in He. destruct He as (x & Hx & He).
+    specialize (IH x Hx e s He Hs). pose proof (max_node_in l x Hx). simpl. unfold max_node in *. lia.
+Qed.
+
+Lemma dedup_complete : forall l seen u, In u (map ie_uid l) -> ~ In u seen -> In u (map ie_uid (dedup seen l)).
+Proof.
+  induction l as [|e r IH]; intros seen u Hu Hs; simpl in *; [contradiction|].
+  destruct (existsb (Nat.eqb (ie_uid e)) seen) eqn:E.
+  - destruct Hu as [Hu|Hu]; [|apply IH; auto]. subst u. exfalso. apply existsb_exists in E. destruct E as (x & Hx & Hex).
+    apply Nat.eqb_eq in Hex. subst x. contradiction.
+  - simpl. destruct Hu as [Hu|Hu]; [left; exact Hu|]. destruct (Nat.eq_dec (ie_uid e) u) as [->|Hne]; [left; reflexivity|].
+    right. apply IH; auto. intros [H|H]; auto.
+Qed.
+
+Theorem traversal_complete : forall f c, depth_conn c <= f ->
+  forall u, In u (all_uids_conn f c) -> In u (map ie_uid (elems f c)).
+Proof.
+  induction f as [|f IH]; intros c Hd u Hu.
+  - destruct c; simpl in Hd; lia.
+  - rewrite (proj2 uids_fuel c (S f) Hd) in Hu. rewrite (proj2 uids_structure c) in Hu.
+    cbn [elems]. rewrite (proj2 items_fuel c (S f) Hd).
+    apply dedup_complete; [|intros []]. rewrite map_app. apply in_or_app.
+    apply in_flat_map in Hu. destruct Hu as (e & He & Hue). destruct Hue as [Hue|Hue].
+    + left. subst u. apply in_map. exact He.
+    + right. apply in_flat_map in Hue. destruct Hue as ([s|] & Hs & Hus); [|contradiction]. simpl in Hus.
+      pose proof (proj2 sub_depth c e s He Hs) as Hlt.
+      assert (Hds : depth_conn s <= f) by lia.
+      rewrite <- (proj2 uids_fuel s f Hds) in Hus. specialize (IH s Hds u Hus).
+      apply in_map_iff in IH. destruct IH as (x & Hx & Hin). apply in_map_iff. exists x. split; auto.
+      apply in_flat_map. exists e. split; auto. apply in_flat_map. exists (Some s). split; auto.
+Qed.
+
+Theorem traversal_sound : forall f c, depth_conn c <= f ->
+  forall u, In u (map ie_uid (elems f c)) -> In u (all_uids_conn f c).
+Proof.
+  induction f as [|f IH]; intros c Hd u Hu.
+  - destruct c; simpl in Hd; lia.
+  - rewrite (proj2 uids_fuel c (S f) Hd), (proj2 uids_structure c).
+    cbn [elems] in Hu. rewrite (proj2 items_fuel c (S f) Hd) in Hu.
+    apply in_map_iff in Hu. destruct Hu as (x & Hx & Hin). destruct (dedup_spec (items_conn' c ++ flat_map (fun e => flat_map (fun os => match os with Some s => elems f s | None => [] end) (ie_subs e)) (items_conn' c)) []) as (_ & _ & Hsub).
+    specialize (Hsub x Hin). apply in_app_or in Hsub. destruct Hsub as [Hsub|Hsub].
+    + apply in_flat_map. exists x. split; auto. left. exact Hx.
+    + apply in_flat_map in Hsub. destruct Hsub as (e & He & Hsub). apply in_flat_map in Hsub. destruct Hsub as ([s|] & Hs & Hxs); [|contradiction].
+      pose proof (proj2 sub_depth c e s He Hs) as Hlt. assert (Hds : depth_conn s <= f) by lia.
+      assert (Hu' : In u (all_uids_conn f s)) by (apply IH; auto; apply in_map_iff; exists x; auto).
+      rewrite (proj2 uids_fuel s f Hds) in Hu'. apply in_flat_map. exists e. split; auto. right.
+      apply in_flat_map. exists (Some s). split; auto.
+Qed.
